@@ -174,6 +174,45 @@ Theorem c02_rpc_panic_is_internal : forall h ls s a res,
 Proof. exact t_rpc_panic_is_internal. Qed.
 Print Assumptions c02_rpc_panic_is_internal.
 
+(* ------------------------------------------------------------------ concurrent requests *)
+(* m requests through ONE TimeoutHandler instance = the product of m per-request LTSs sharing nothing (Model,
+   Section Product: a label (i, l) moves request i).  For EVERY interleaving ls of the product: request i ends
+   in exactly the state it reaches alone under its own part of the schedule (proj i ls), hence it gets exactly
+   its own handler's response or its own timeout response; and whether a step of request i is enabled depends
+   on request i's state only -- a slow, parked or abandoned handler of another request cannot delay it. *)
+Theorem c02_requests_independent : forall recover reqs ls ss,
+  prun (step recover) ls (pinit reqs) = Some ss ->
+  List.length ss = List.length reqs /\
+  (forall i rh0 acts, nth_error reqs i = Some (rh0, acts) ->
+     exists s, nth_error ss i = Some s /\
+       run recover (proj i ls) (init rh0 acts) = Some s /\
+       match st_sel s with
+       | None => rw_log (st_rw s) = []
+       | Some ArmDone => exists r, handler_response recover rh0 acts = Some r /\ committed (st_rw s) r
+       | Some ArmFired => exists c, st_fired s = Some c /\ committed (st_rw s) (timeout_response c rh0)
+       | Some ArmPanic => handler_response recover rh0 acts = None /\ recover = false /\ rw_log (st_rw s) = []
+       end) /\
+  (forall i l, (exists ss', pstep (step recover) (i, l) ss = Some ss') <->
+               (exists s s', nth_error ss i = Some s /\ step recover l s = Some s')).
+Proof. exact t_requests_independent. Qed.
+Print Assumptions c02_requests_independent.
+
+Theorem c02_rpc_requests_independent : forall crash hs ls ss,
+  prun (rstep crash) ls (map rinit hs) = Some ss ->
+  List.length ss = List.length hs /\
+  (forall i h, nth_error hs i = Some h ->
+     exists s, nth_error ss i = Some s /\ rrun crash (proj i ls) (rinit h) = Some s /\
+       match rs_out s with
+       | None => True
+       | Some (ArmDone, res) => exists r c, h = HReturn r c /\ res = RResult r c
+       | Some (ArmFired, res) => exists c, rs_fired s = Some c /\ res = RResult None (deadline_code c)
+       | Some (ArmPanic, res) => h = HPanics /\ res = (if crash then RResult None codeInternal else RPropagatedPanic)
+       end) /\
+  (forall i l, (exists ss', pstep (rstep crash) (i, l) ss = Some ss') <->
+               (exists s s', nth_error ss i = Some s /\ rstep crash l s = Some s')).
+Proof. exact t_rpc_requests_independent. Qed.
+Print Assumptions c02_rpc_requests_independent.
+
 (* ------------------------------------------------------------------ chain order, from the generated lists *)
 Theorem c02_chain_order :
   guards_of C02_Gen.rest_chain = [GMaxConns; GBreaker; GShedding; GTimeout; GRecover; GMaxBytes] /\
@@ -221,3 +260,13 @@ Example c02_nonvacuous_rpc :
   (exists s, rrun true [LH; LSel ArmPanic] (rinit HPanics) = Some s /\
              rs_out s = Some (ArmPanic, RResult None codeInternal)).
 Proof. split; eexists; vm_compute; split; reflexivity. Qed.
+
+(* two overlapping requests: #0 is cut by a client cancel while parked after its first write, #1 runs to its
+   end in between -- each gets its own response *)
+Example c02_nonvacuous_two_requests :
+  exists ss, prun (step true)
+                  [(0, LH); (1, LH); (0, LFire CCancel); (1, LH); (0, LSel ArmFired); (1, LH); (1, LSel ArmDone); (0, LH)]%nat
+                  (pinit [([], [Write [97]%nat; Write [98]%nat]); ([], [WriteHeader 404; Write [99]%nat])]) = Some ss /\
+             map (fun s => rw_log (st_rw s)) ss =
+             [[RWriteHeader 499 []; RWrite reason]; [RWriteHeader 404 []; RWrite [99]%nat]].
+Proof. eexists. vm_compute. split; reflexivity. Qed.
